@@ -183,8 +183,25 @@ def esc2(ctx: Ctx) -> None:
                         ctx.R.ok("ESC-2", f"{mod.name}.{q}: {norm(c)}", "FrameIterator is the marker type for iterators that are meant to be stepped")
                     elif isinstance(a0, ast.Name) and a0.id in ("it",) and mod.name == "_lowlevel" and q in ("_parse_varint",):
                         ctx.R.ok("ESC-2", f"{mod.name}.{q}: {norm(c)}", "byte iterator over co_exceptiontable passed by _parse_exception_table")
-                    elif isinstance(a0, ast.Name) and a0.id == "it" and mod.name == "_extract" and q == "extract_child":
+                    elif isinstance(a0, ast.Name) and any(isinstance(st, ast.Assign) and norm(st.targets[0]) == a0.id and isinstance(st.value, ast.Call)
+                                                         and ctx.P.resolve_call(mod, st.value).is_pkg("_extract", "extract_iter") for st in walk_scope(fn)):
                         ctx.R.ok("ESC-2", f"{mod.name}.{q}: {norm(c)}", "the engine's own generator")
+                    elif isinstance(a0, ast.Name) and a0.id in [a.arg for a in fn.args.args] and mod.name == "_extract":
+                        # a private helper: judge by what its call sites pass
+                        pi = [a.arg for a in fn.args.args].index(a0.id)
+                        sites = [cc for cc in ast.walk(mod.tree) if isinstance(cc, ast.Call) and isinstance(cc.func, ast.Name) and cc.func.id == fn.name and len(cc.args) > pi]
+                        verdicts = []
+                        for cc in sites:
+                            cf = mod.enclosing_def(cc)
+                            gs2 = [norm(gx) for gx, pol in guards_of(mod, cc, cf)] if cf is not None else []
+                            verdicts.append(any(g.startswith(f"isinstance({norm(cc.args[pi])},") and "FrameIterator" in g for g in gs2))
+                        if sites and all(verdicts):
+                            ctx.R.ok("ESC-2", f"{mod.name}.{q}: {norm(c)}", f"every call site of {fn.name} passes a value tested to be a FrameIterator")
+                        elif sites and not any(verdicts):
+                            ctx.R.fail("ESC-2", mod, c, f"next() is applied to a parameter of {fn.name}, and a call site passes a value that was not tested to be a FrameIterator "
+                                       "(a generator that is a stack item would be advanced)")
+                        else:
+                            ctx.R.undecided("ESC-2", f"cannot trace what reaches next({a0.id}) in {q}")
                     else:
                         ctx.R.fail("ESC-2", mod, c, "next() is applied to a value that may be an extraction target (a generator that is a stack item would be advanced)")
     # iteration over an unwrap result in extract_iter only as a Sequence
